@@ -182,6 +182,9 @@ func (h *Handler) serveConsumeLogs(w http.ResponseWriter, r *http.Request, user 
 	t := time.Now()
 	repository := mux.Vars(r)[Repository]
 	logStream := mux.Vars(r)[LogStream]
+	if !h.authorizeLogStoreRead(w, user, repository) {
+		return
+	}
 	consumeInfo, filterOpt, err := h.getConsumeInfo(w, r, user, t, &measurementInfo{database: repository, name: logStream, retentionPolicy: logStream})
 	if err != nil {
 		h.Logger.Error("query log scan request error! ", zap.Error(err), zap.Any("r", r))
@@ -683,6 +686,9 @@ func (h *Handler) serveGetConsumeCursors(w http.ResponseWriter, r *http.Request,
 		h.Logger.Error("query log scan request error! ", zap.Error(err), zap.Any("r", r))
 		h.httpErrorRsp(w, ErrorResponse(err.Error(), LogReqErr), http.StatusBadRequest)
 		handlerStat.Write400ErrRequests.Incr()
+		return
+	}
+	if !h.authorizeLogStoreRead(w, user, repository) {
 		return
 	}
 	db, err := h.MetaClient.Database(repository)
